@@ -458,27 +458,69 @@ Proof.
   rewrite H. assert (E : bits 1 = 1) by reflexivity. rewrite E. cbn [Z.eqb]. lia.
 Qed.
 
-(* one direct call: the power built is smaller than the mask width (left) or the operand (right),
-   and nothing larger than operand-plus-mask-width bits is computed from it *)
-Lemma direct_work_bound left l r p :
-  (sw_calls (direct_work left l r p) = 1)%nat /\
-  (forall k, sw_built (direct_work left l r p) = Some k ->
-     0 <= k < 2 ^ 64 /\ r = k /\ if left then k < radix_len p else k < bits l) /\
-  0 <= sw_bits (direct_work left l r p) <= bits l + radix_len p.
+(* one direct call.  Value and work come from one definition (shl_direct_w / shr_direct_w); the value
+   part is the shl_direct / shr_direct of the refinement theorems *)
+Lemma shl_direct_w_value l r p : fst (shl_direct_w l r p) = shl_direct l r p.
+Proof.
+  unfold shl_direct_w, shl_direct, mask, pow2_tick, sized.
+  destruct (to_usize r) as [k|]; [|reflexivity]. destruct (radix_len p <=? k); reflexivity.
+Qed.
+
+Lemma shr_direct_w_value l r p : fst (shr_direct_w l r p) = shr_direct l r p.
+Proof.
+  unfold shr_direct_w, shr_direct, pow2_tick.
+  destruct (to_usize r) as [k|]; [|reflexivity]. destruct (bits l <=? k); reflexivity.
+Qed.
+
+Definition direct_w (left : bool) (l r p : Z) : outcome Z * shift_work :=
+  if left then shl_direct_w l r p else shr_direct_w l r p.
+
+(* the record says `2^k was built` exactly when the value is the one formed from 2^k, and then k is
+   the count, below the mask width (left) or the operand's bit size (right); when it says that no
+   power was built, the value is 0 or the error; the sizes recorded are bounded by the bit sizes *)
+Lemma direct_w_work left l r p :
+  (sw_calls (snd (direct_w left l r p)) = 1)%nat /\
+  (forall k, sw_built (snd (direct_w left l r p)) = Some k ->
+     0 <= k < 2 ^ 64 /\ r = k /\
+     ((k < radix_len p /\ fst (direct_w left l r p) = Ok (modulus (Z.land (l * 2 ^ k) (mask p)) p)) \/
+      (k < bits l /\ fst (direct_w left l r p) = Ok (Z.quot l (2 ^ k))))) /\
+  (sw_built (snd (direct_w left l r p)) = None ->
+     sw_bits (snd (direct_w left l r p)) = 0 /\
+     (fst (direct_w left l r p) = Ok 0 \/ fst (direct_w left l r p) = Err EDivisionByZero)) /\
+  0 <= sw_bits (snd (direct_w left l r p)) <= bits l + radix_len p + 1.
 Proof.
   pose proof (bits_ge0 l) as Hb. pose proof (radix_len_ge1 p) as Hr.
-  unfold direct_work, to_usize.
-  destruct (Z.leb_spec 0 r); destruct (Z.ltb_spec r (2 ^ 64)); cbn [andb sw_calls sw_built sw_bits];
-    try (split; [reflexivity|split; [discriminate|lia]]).
+  unfold direct_w, shl_direct_w, shr_direct_w, to_usize, pow2_tick, sized, no_work, mask.
+  destruct (Z.leb_spec 0 r); destruct (Z.ltb_spec r (2 ^ 64)); cbn [andb];
+    try (destruct left; cbn [fst snd sw_calls sw_built sw_bits];
+         (split; [reflexivity|split; [discriminate|split; [auto|lia]]])).
   destruct left.
-  - destruct (Z.leb_spec (radix_len p) r); cbn [sw_calls sw_built sw_bits];
-      [split; [reflexivity|split; [discriminate|lia]]|].
-    split; [reflexivity|]. split; [intros k [= <-]; lia|].
-    rewrite bits_mul_pow2 by lia. destruct (l =? 0); lia.
-  - destruct (Z.leb_spec (bits l) r); cbn [sw_calls sw_built sw_bits];
-      [split; [reflexivity|split; [discriminate|lia]]|].
-    split; [reflexivity|]. split; [intros k [= <-]; lia|].
+  - destruct (Z.leb_spec (radix_len p) r); cbn [fst snd sw_calls sw_built sw_bits];
+      [split; [reflexivity|split; [discriminate|split; [auto|lia]]]|].
+    split; [reflexivity|]. split; [intros k [= <-]; split; [lia|split; [reflexivity|left; split; [lia|reflexivity]]]|].
+    split; [discriminate|].
+    rewrite bits_pow2, bits_mul_pow2, bits_pow2 by lia. destruct (l =? 0); lia.
+  - destruct (Z.leb_spec (bits l) r); cbn [fst snd sw_calls sw_built sw_bits];
+      [split; [reflexivity|split; [discriminate|split; [auto|lia]]]|].
+    split; [reflexivity|]. split; [intros k [= <-]; split; [lia|split; [reflexivity|right; split; [lia|reflexivity]]]|].
+    split; [discriminate|].
     rewrite bits_pow2 by lia. lia.
+Qed.
+
+Lemma direct_w_value left l r p :
+  fst (direct_w left l r p) = if left then shl_direct l r p else shr_direct l r p.
+Proof. unfold direct_w. destruct left; [apply shl_direct_w_value|apply shr_direct_w_value]. Qed.
+
+Lemma shift_w_step n left l r p :
+  shift_w (S n) left l r p =
+  if r <=? Z.quot p 2 then direct_w left l r p
+  else (fst (shift_w n (negb left) l (p - r) p),
+        {| sw_calls := S (sw_calls (snd (shift_w n (negb left) l (p - r) p)));
+           sw_built := sw_built (snd (shift_w n (negb left) l (p - r) p));
+           sw_bits := sw_bits (snd (shift_w n (negb left) l (p - r) p)) |}).
+Proof.
+  cbn [shift_w]. cbv zeta. unfold direct_w. destruct (r <=? Z.quot p 2); [reflexivity|].
+  destruct (shift_w n (negb left) l (p - r) p) as [res w]. reflexivity.
 Qed.
 
 (* the value of the recursion as written is the unfolded shift_l / shift_r of the refinement theorems *)
@@ -488,16 +530,18 @@ Lemma shift_w_value fuel left l r p :
 Proof.
   intros Hp Hf. destruct fuel as [|[|n]]; try lia.
   assert (Htop : Z.quot p 2 = p / 2) by (apply Z.quot_div_nonneg; lia).
-  cbn [shift_w]. unfold shift_l, shift_r. cbv zeta. rewrite Htop.
+  rewrite shift_w_step. unfold shift_l, shift_r. cbv zeta. rewrite Htop.
   destruct (Z.leb_spec r (p / 2)).
-  - destruct left; reflexivity.
-  - destruct (Z.leb_spec (p - r) (p / 2)); [|lia].
-    destruct left; reflexivity.
+  - rewrite direct_w_value. destruct left; reflexivity.
+  - rewrite shift_w_step. rewrite Htop. cbn [fst].
+    destruct (Z.leb_spec (p - r) (p / 2)); [|lia].
+    rewrite direct_w_value. destruct left; reflexivity.
 Qed.
 
 Lemma direct_not_outoffuel (left : bool) (l r p : Z) :
-  (if left then shl_direct l r p else shr_direct l r p) <> OutOfFuel.
+  fst (direct_w left l r p) <> OutOfFuel.
 Proof.
+  rewrite direct_w_value.
   destruct left; [unfold shl_direct|unfold shr_direct]; destruct (to_usize r); try discriminate;
     match goal with |- context [if ?c then _ else _] => destruct c end; discriminate.
 Qed.
@@ -508,26 +552,29 @@ Theorem shift_bounded_work fuel left l r p :
   fst (shift_w fuel left l r p) <> OutOfFuel /\
   (1 <= sw_calls (snd (shift_w fuel left l r p)) <= 2)%nat /\
   (forall k, sw_built (snd (shift_w fuel left l r p)) = Some k ->
-     0 <= k < 2 ^ 64 /\ k < Z.max (radix_len p) (bits l) /\ (r = k \/ r = p - k)) /\
-  0 <= sw_bits (snd (shift_w fuel left l r p)) <= bits l + radix_len p.
+     0 <= k < 2 ^ 64 /\ (r = k \/ r = p - k) /\
+     ((k < radix_len p /\ fst (shift_w fuel left l r p) = Ok (modulus (Z.land (l * 2 ^ k) (mask p)) p)) \/
+      (k < bits l /\ fst (shift_w fuel left l r p) = Ok (Z.quot l (2 ^ k))))) /\
+  (sw_built (snd (shift_w fuel left l r p)) = None ->
+     sw_bits (snd (shift_w fuel left l r p)) = 0 /\
+     (fst (shift_w fuel left l r p) = Ok 0 \/ fst (shift_w fuel left l r p) = Err EDivisionByZero)) /\
+  0 <= sw_bits (snd (shift_w fuel left l r p)) <= bits l + radix_len p + 1.
 Proof.
   intros Hp Hf. split; [apply shift_w_value; assumption|].
   destruct fuel as [|[|n]]; try lia.
   assert (Htop : Z.quot p 2 = p / 2) by (apply Z.quot_div_nonneg; lia).
-  cbn [shift_w]. cbv zeta. rewrite Htop.
+  rewrite shift_w_step. rewrite Htop.
   destruct (Z.leb_spec r (p / 2)).
-  - cbn [fst snd]. destruct (direct_work_bound left l r p) as (Hc & Hk & Hs).
-    split; [apply direct_not_outoffuel|].
-    split; [lia|]. split; [|assumption].
-    intros k E. specialize (Hk k E). destruct left; lia.
-  - destruct (Z.leb_spec (p - r) (p / 2)); [|lia]. cbn [fst snd sw_calls sw_built sw_bits].
-    destruct (direct_work_bound (negb left) l (p - r) p) as (Hc & Hk & Hs).
-    split; [apply (direct_not_outoffuel (negb left))|].
-    split; [lia|]. split; [|assumption].
-    intros k E. specialize (Hk k E). destruct left; cbn [negb] in Hk; lia.
+  - destruct (direct_w_work left l r p) as (Hc & Hk & Hn & Hs).
+    split; [apply direct_not_outoffuel|]. split; [lia|]. split; [|split; assumption].
+    intros k E. destruct (Hk k E) as (H1 & H2 & H3). split; [assumption|]. split; [left; assumption|assumption].
+  - rewrite shift_w_step. rewrite Htop.
+    destruct (Z.leb_spec (p - r) (p / 2)); [|lia]. cbn [fst snd sw_calls sw_built sw_bits].
+    destruct (direct_w_work (negb left) l (p - r) p) as (Hc & Hk & Hn & Hs).
+    split; [apply direct_not_outoffuel|]. split; [lia|]. split; [|split; assumption].
+    intros k E. destruct (Hk k E) as (H1 & H2 & H3). split; [assumption|]. split; [right; lia|assumption].
 Qed.
 
-Local Transparent Z.pow.
 (* ---------- operands that are no field elements (negative, at or above p): what still holds ---------- *)
 Lemma normalize_01 x p : normalize x p = 0 \/ normalize x p = 1.
 Proof. unfold normalize. destruct (comparable_element x p =? 0); auto. Qed.
